@@ -1,16 +1,16 @@
 package main
 
 import (
-	pathpkg "path"
 	"archive/tar"
 	"bytes"
 	"compress/bzip2"
 	"compress/gzip"
-	"os/exec"
 	"context"
 	"fmt"
 	"io"
 	"os"
+	"os/exec"
+	pathpkg "path"
 	"sort"
 	"strings"
 	"time"
